@@ -228,6 +228,58 @@ def outputs_match(real_out, model_out):
     return len(a) == len(b) and all(core.tokens_equal(x, y) for x, y in zip(a, b))
 
 
+def gen_gap_history(rng):
+    """one aircraft: a position fix, then only velocity / identification squitters (one every 20-55 s, so that it stays
+    listed) while it flies on for many minutes, then position reports again.  The stored fix is by then far more than
+    half a CPR zone away (and much older than 180 s), so only a fresh even/odd pair may be used."""
+    surface = False   # (a surface target would leave the 45 NM neighbourhood of a fixed receiver: outside the property's premise)
+    lat, lon = rng.uniform(-60, 60), rng.uniform(-179, 179)
+    hdg = rng.choice([0.0, 180.0, 90.0, 270.0, rng.uniform(0, 360)])
+    spd = rng.uniform(100, 150) if surface else rng.uniform(450, 600)
+    addr = rng.getrandbits(24) | 0x10
+    key = "%06X" % addr
+    rx = (lat + rng.uniform(-0.2, 0.2), (lon + rng.uniform(-0.2, 0.2) + 180) % 360 - 180)
+    base = 90 if surface else 360
+    t = rng.choice([0.0, 5000.25, 1.7e9])
+    calls, truth = [], {}
+    st = dict(lat=lat, lon=lon, i=0, tl=t)
+
+    def advance(tn):
+        st["lat"], st["lon"] = cpr.displace(st["lat"], st["lon"], hdg, spd * (tn - st["tl"]) / 3600.0)
+        st["tl"] = tn
+
+    def positions(n):
+        nonlocal t
+        adsb = []
+        for _ in range(n):
+            t = round(t + rng.uniform(0.4, 1.2), 3)
+            advance(t)
+            st["i"] = 1 - st["i"]
+            tc = rng.randrange(5, 9) if surface else rng.randrange(9, 19)
+            m, e = pos_frame(rng, addr, tc, st["lat"], st["lon"], st["i"], base)
+            truth[(key, t)] = (st["lat"], st["lon"], float(e["dlon"]) / 262144.0)
+            adsb.append((t, m))
+        calls.append((t, adsb, []))
+    positions(rng.randrange(3, 6))
+    # surface: 0.75 deg of latitude / a quarter of a 90-degree longitude zone; airborne: 3 deg / 180 NM
+    need_nm = (60.0 if surface else 200.0) * rng.uniform(1.0, 1.6)
+    t_end = t + need_nm / spd * 3600.0
+    while t < t_end:
+        t = round(t + rng.uniform(20, 55), 3)
+        m = other_frame(rng, addr, rng.choice(["vel", "ident"]))
+        calls.append((t, [(t, m)], []))
+    if surface:
+        # the receiver must be within 45 NM of the target for the surface decode: it moves along (a mobile receiver is
+        # outside the model, so place the fixed receiver near the *new* position and accept the first fix being far)
+        pass
+    positions(rng.randrange(3, 7))
+    if surface:
+        rx = (st["lat"] + rng.uniform(-0.1, 0.1), (st["lon"] + rng.uniform(-0.1, 0.1) + 180) % 360 - 180)
+    if abs(st["lat"]) > 86:
+        return None
+    return rx, calls, truth
+
+
 def pred_history(real_out, calls_json, truth_json):
     """the property on the real code: no exception, staleness bounds, Comm-B gating, position accuracy"""
     if real_out in ("RE", "EXC"):
@@ -290,6 +342,15 @@ def pred_history(real_out, calls_json, truth_json):
 
 def cases(ctx):
     rng = ctx.rng
+    for _ in range(ctx.n(40, 400)):
+        g = gen_gap_history(rng)
+        if g is None:
+            continue
+        rx, calls, truth = g
+        cj = json.dumps([[tn, [[t, m] for t, m in a], [[t, m] for t, m in c]] for tn, a, c in calls])
+        tj = json.dumps({json.dumps(list(k)): v for k, v in truth.items()})
+        op = "trk %s,%s %s" % (fr(rx[0]), fr(rx[1]), encode_calls(calls))
+        yield dict(op=op, real=("h:props.C17.run_history", [list(rx), cj]), pred=["pred_history", cj, tj], tag="position-gap")
     for _ in range(ctx.n(1200, 8000)):
         rx, calls, truth = gen_history(rng, ctx.thorough)
         cj = json.dumps([[tn, [[t, m] for t, m in a], [[t, m] for t, m in c]] for tn, a, c in calls])
